@@ -495,10 +495,33 @@ func c07EqualPairs(c *Case) {
 		}
 		desc := fmt.Sprintf("%s then %s, entries_per_node=%d, %d neighbours", lit(a), lit(b), epn, nb)
 		fmt.Fprintf(&canon, "%s;", desc)
+		// the two INSERTs are separate statements, or share one transaction, or are one multi-row INSERT
+		// (which then fails as a whole; the first value is inserted alone afterwards)
+		together := r.Intn(3)
+		if together == 2 {
+			errm := conn.Exec("insert into "+vt+" values (?,?),(?,?)", a, "first", b, "second")
+			c.Count("equal_pairs_in_one_statement", 1)
+			if errClass(errm) != "constraint-pk" {
+				c.Violate("C07:equal-pair:multi-row-insert-"+errClass(errm), fmt.Sprintf("%s: one INSERT with both values gave %v, want a primary key constraint failure", desc, errm), nil)
+			}
+			desc += " (after a multi-row INSERT of both)"
+		}
+		if together == 1 {
+			conn.Exec("begin")
+			desc += " (in one transaction)"
+		}
 		if err := conn.Exec("insert into "+vt+" values (?,?)", a, "first"); err != nil {
+			if together == 1 {
+				conn.Exec("rollback")
+			}
 			c.Violate("C07:equal-pair:first-insert-failed", desc+": "+err.Error(), nil)
 		} else {
 			err2 := conn.Exec("insert into "+vt+" values (?,?)", b, "second")
+			if together == 1 {
+				if errc := conn.Exec("commit"); errc != nil {
+					c.Violate("C07:equal-pair:commit-error", desc+": "+errc.Error(), nil)
+				}
+			}
 			c.Count("equal_pairs_inserted", 1)
 			if errClass(err2) != "constraint-pk" {
 				c.Violate("C07:equal-pair:second-insert-"+errClass(err2), fmt.Sprintf("%s: second INSERT of an equal key gave %v, want a primary key constraint failure", desc, err2), nil)
